@@ -697,10 +697,10 @@ class DMSAngle(object):
         :return: HP Notation (DDD.MMSSSS)
         :rtype: float
         """
-        if self.positive:
-            return self.degree + (self.minute / 100) + (self.second / 10000)
-        else:
-            return -(self.degree + (self.minute / 100) + (self.second / 10000))
+        # through dec2hp, which rounds the seconds and carries 60 s / 60 min
+        # (dec2dms(1.0833333333333333) holds 59.9999999999995 s: the bare sum
+        # D + M/100 + S/10000 gave the invalid HP value 1.046)
+        return dec2hp(self.dec())
 
     def hpa(self):
         """
@@ -899,11 +899,9 @@ class DDMAngle(object):
         :return: HP Notation (DDD.MMSSSS)
         :rtype: float
         """
-        minute_int, second = divmod(self.minute, 1)
-        if self.positive:
-            return self.degree + (minute_int / 100) + (second * 0.006)
-        else:
-            return -(self.degree + (minute_int / 100) + (second * 0.006))
+        # through dec2hp, which rounds the seconds and carries 60 s / 60 min
+        # (see DMSAngle.hp)
+        return dec2hp(self.dec())
 
     def hpa(self):
         """
